@@ -10,7 +10,7 @@ import ast
 
 from ..loader import AnalysisError
 from ..sym import (C, NONE, Interp, contains, is_const, iter_events, kind,
-                   term_str, walk_term)
+                   subst_fold, term_str, truth, walk_term)
 from .codec_rules import strip_sites
 
 CLS = 'client.DBusClientConnection'
@@ -683,6 +683,28 @@ def convention(ctx, cv):
                'is delivered as a value instead of failing with RemoteError',
                {'value': term_str(p.value)[:60],
                 'path': [(term_str(c)[:50], pol) for c, pol in p.cond[:6]]})
+        # ... by VALUE: with a declared signature 's', no delivering path is
+        # feasible for a reply whose signature is absent, empty or different
+        # (every test of the path that mentions the two is evaluated)
+        for got_ in (None, '', 'i', 'ss'):
+            env = {sig: C(got_), rs: C('s')}
+            feas = True
+            for c, pol in p.cond:
+                if not (contains(c, lambda x: x == sig) or
+                        contains(c, lambda x: x == rs)):
+                    continue
+                tv = truth(subst_fold(c, env))
+                if tv is not None and tv != pol:
+                    feas = False
+                    break
+            ctx.ob('C08.D5', cv.qualname, 'declared-s-refuses-reply:%r'
+                   % (got_,), not feas,
+                   'a call declared to return "s" is completed with a value '
+                   'on a path that a reply with signature %r takes [%s]: a '
+                   'reply that does not match the declared signature must '
+                   'fail the call with RemoteError' % (got_, '; '.join(
+                       '%s is %s' % (term_str(c)[:50], pol)
+                       for c, pol in p.cond[:4])), nontrivial=feas)
         # ... and compared for EQUALITY when a non-empty signature was
         # declared (`in` between two strings is a substring test: declared
         # 'ii', reply 'i' would pass)
